@@ -23,7 +23,7 @@ RULE = ("cases: arrays with variables whose ids are str / unicode / empty / int-
         '(bounds -32768..32767) and user subclasses of variable; sequences in which a declared array is first used for read-only questions that wrap it '
         'again (separable, neglectable_columns, neglect_columns, ge_polyhedron(P), boolean_ndarray(a, variables=other)) and the declared association '
         'is compared before/after, then the bridge functions are asked on the first object.')
-BUDGET = {"quick": (12, 1000, 90), "thorough": (16, 8000, 1200)}
+BUDGET = {"quick": (12, 3000, 90), "thorough": (16, 8000, 1200)}
 PYTEST = True     # thorough tier also runs the repository's own tests under these monitors
 MANDATORY = ["judged:construct", "judged:construct:callable-default", "judged:construct:float-nan-default", "judged:construct:int-lower-default",
              "judged:boolean-integer-partition", "judged:integer.from_list", "judged:boolean.from_list", "judged:to_list:1D", "judged:to_list:2D",
